@@ -787,6 +787,18 @@ static bool parse_code_placeholder(TokenContext &ctx, Chunk &pc)
    {
       size_t last2 = last1;
       last1 = ctx.get();
+
+      // the placeholder may span several lines: none of them ends in a blank
+      if (  last1 == '\n'
+         || last1 == '\r')
+      {
+         while (  pc.Len() > 0
+               && (  pc.GetStr().back() == ' '
+                  || pc.GetStr().back() == '\t'))
+         {
+            pc.Str().pop_back();
+         }
+      }
       pc.Str().append(last1);
 
       if (  (last2 == '#')            // 35
